@@ -126,7 +126,11 @@ impl<A, C: Clock, F: Filter, R: Rng, S: PtpInstanceStateMutex> Port<'_, InBmca, 
     pub(crate) fn step_announce_age(&mut self, step: Duration) {
         if let Some(mut age) = self.multiport_disable.take() {
             age += step;
-            if age < self.config.announce_interval.as_duration() {
+            // Keep the port disabled until the age is *larger* than the announce interval:
+            // the BMCA itself runs once per announce interval, so with `<` the entry was
+            // dropped by the first run after each Announce and the port flapped to master
+            // whenever the next Announce arrived just after a BMCA run instead of just before.
+            if age <= self.config.announce_interval.as_duration() {
                 self.multiport_disable = Some(age)
             }
         }
